@@ -256,7 +256,8 @@ def w_direction(cfg, tier):
 
 
 # ----------------------------------------------------------------------------------------------
-ETAS = ['0.5', '1', '3', '10', 'inf']
+# incl. ratios that share their integer part / leading digits ('0.25' ~ '0.5', '1' ~ '1.5' ~ '10')
+ETAS = ['0.25', '0.5', '1', '1.5', '3', '10', 'inf']
 
 
 def run_generate(cli, etas, sizes, prob, bias, code_class, deformation_name, label):
